@@ -146,7 +146,7 @@ contract("tokenizers.token_is_from_nominative_reporter",
 # ------------------------------------------------------------------------------------------------ append_text
 contract("tokenizers.Tokenizer.append_text",
     types={"tokens": "seq[obj<TokenOrStr>]", "text": "str"}, returns="none", prop="C12",
-    ghost={"doc": "str", "base": "int"},
+    ghost={"doc": "str", "base": "int", "snap": "seq[obj<TokenOrStr>]"},
     requires={"args": "tokens is not None and text is not None and len(text) >= 1",
               # ghost: `text` is the slice of the document starting at absolute offset ghost.base
               "is_slice": "0 <= ghost.base and ghost.base + len(text) <= len(ghost.doc) and text == ghost.doc[ghost.base:ghost.base + len(text)]"},
@@ -158,8 +158,65 @@ contract("tokenizers.Tokenizer.append_text",
         # concatenating the appended words gives exactly `text`: each word is the slice of the document at its cumulative offset
         "cat_is_text": "cum(tokens, len(tokens)) == cum(old(tokens), len(old(tokens))) + len(text) and forall(lambda i: implies(len(old(tokens)) <= i and i < len(tokens), "
                        "str(tokens[i]) == ghost.doc[ghost.base + cum(tokens, i) - cum(old(tokens), len(old(tokens))):ghost.base + cum(tokens, i + 1) - cum(old(tokens), len(old(tokens)))]))",
-    },
-    assumed=True, trusted_note="E-STR split/join: text.split(' ') re-joined with single-space elements reproduces text (body uses list.extend/pop over split parts)")
+    })
+
+# E-STR-SPLIT: parts = s.split(" "): part k starts at sp_off(parts, k); parts are separated by exactly one space; no part contains a space
+sp_off = z3.Function("sp_off", z3.ArraySort(z3.IntSort(), z3.StringSort()), z3.IntSort(), z3.IntSort())
+
+
+@spec("on_split")
+def _split_theory(e, st, out, s, args):
+    if not (args and args[0].tag and args[0].tag[0] == "lit" and args[0].tag[1] == " "):
+        return
+    P = out.v.arrs[0]
+    n = out.v.len
+    sv = s.v if hasattr(s, "v") else s
+    k = z3.Int(fresh_name("spk"))
+    pk = z3.Select(P, k)
+    st.assume(sp_off(P, I(0)) == 0)
+    st.assume(ForAllP([k], Implies(k >= 0, sp_off(P, k + 1) == sp_off(P, k) + z3.Length(pk) + 1), patterns=[sp_off(P, k + 1)]))
+    st.assume(ForAllP([k], Implies(k >= 0, sp_off(P, k + 1) == sp_off(P, k) + z3.Length(pk) + 1), patterns=[z3.MultiPattern(sp_off(P, k), z3.Select(P, k))]))
+    st.assume(ForAllP([k], Implies(And(k >= 0, k < n), And(Not(z3.Select(out.v.arrs[1], k)), sp_off(P, k) >= 0, sp_off(P, k) + z3.Length(pk) <= z3.Length(sv),
+                                                            z3.SubString(sv, sp_off(P, k), z3.Length(pk)) == pk, Not(z3.Contains(pk, z3.StringVal(" "))))), patterns=[z3.Select(P, k)]))
+    st.assume(ForAllP([k], Implies(And(k >= 0, k + 1 < n), z3.SubString(sv, sp_off(P, k) + z3.Length(pk), 1) == z3.StringVal(" ")), patterns=[z3.Select(P, k)]))
+    st.assume(sp_off(P, n) == z3.Length(sv) + 1)
+    e.trust("E-STR-SPLIT: s.split(' ') = the maximal space-free pieces of s in order, separated by exactly one space each (sp_off = start offset of a piece)")
+
+
+@spec("sp_off")
+def _sp_off(e, st, parts, k):
+    return SV(INT, sp_off(parts.v.arrs[0], k.v))
+
+
+@spec("SLICES")
+def _SLICES(e, st, words, lo, text, c0, hi):
+    """every word from index lo on that ends at or before offset hi (offsets relative to c0) is a str equal to the text at its cumulative offsets"""
+    W = words.v.arrs[0]
+    cum_theory(e, st, W)
+    i = z3.Int(fresh_name("sl"))
+    w = z3.Select(W, i)
+    a, b = cum(W, i) - c0.v, cum(W, i + 1) - c0.v
+    return SV(BOOL, ForAllP([i], Implies(And(lo.v <= i, i < words.v.len, b <= hi.v),
+                                          And(Not(z3.Select(words.v.arrs[1], i)), class_of(w) == 0, strval(w) == z3.SubString(text.v, a, b - a))), patterns=[z3.Select(W, i)]))
+
+
+lemma("slices_append", ["W:seq[obj<TokenOrStr>]", "lo:int", "t:str", "c0:int", "hi:int", "x:str"],
+      "implies(SLICES(W, lo, t, c0, hi) and 0 <= lo and lo <= len(W) and c0 <= cum(W, lo) "
+      "and implies(cum(W, len(W)) + len(x) - c0 <= hi, x == t[cum(W, len(W)) - c0:cum(W, len(W)) - c0 + len(x)]), "
+      "SLICES(seq_append(W, x), lo, t, c0, hi))")
+
+_C0 = "cum(old(tokens), len(old(tokens)))"
+loop("tokenizers.Tokenizer.append_text", 1,
+    invariant={
+        "extends": "tokens is not None and len(tokens) >= len(old(tokens)) and forall(lambda i: implies(0 <= i and i < len(old(tokens)), tokens[i] is old(tokens)[i]))",
+        "cum_frame": "forall(lambda i: implies(0 <= i and i <= len(old(tokens)), cum(tokens, i) == cum(old(tokens), i)))",
+        "only_strings": "forall(lambda i: implies(len(old(tokens)) <= i and i < len(tokens), tokens[i] is not None and isinstance(tokens[i], str)))",
+        # the appended words so far concatenate to the first sp_off(parts, k) characters of `text` followed by the separator of the last part
+        "cum_is_offset": f"cum(tokens, len(tokens)) == {_C0} + sp_off(it, k) and 0 <= sp_off(it, k) and sp_off(it, k) <= len(text) + 1",
+        "slices": f"SLICES(tokens, len(old(tokens)), ghost.doc, {_C0} - ghost.base, ghost.base + len(text))",
+        "last_is_space": "implies(k >= 1, len(tokens) > len(old(tokens)) and str(tokens[len(tokens) - 1]) == ' ')",
+    })
+
 
 # ------------------------------------------------------------------------------------------------ tokenize
 contract("tokenizers.Tokenizer.tokenize",
@@ -220,3 +277,21 @@ ghost_code("tokenizers.Tokenizer.tokenize", "after:Expr#5", "use_lemma('partp_ap
 def _seq_append2(e, st, s, v):
     return e.seq_append(s, v)
 ghost_code("tokenizers.Tokenizer.tokenize", "after:Expr#6", "assert PARTP(all_tokens, text, token.end), 'partition_after_token_append'")
+ghost_code("tokenizers.Tokenizer.append_text", "loop1:body_start", "ghost.snap = tokens")
+ghost_code("tokenizers.Tokenizer.append_text", "loop1:body_end",
+    "assert sp_off(it, k + 1) == sp_off(it, k) + len(part) + 1 and sp_off(it, k) + len(part) <= len(text) and sp_off(it, len(it)) == len(text) + 1, 'split_step'\n"
+    "assert implies(sp_off(it, k + 1) <= len(text), k + 1 < len(it) and text[sp_off(it, k) + len(part):sp_off(it, k) + len(part) + 1] == ' '), 'split_separator'\n"
+    "assert str(tokens[len(tokens) - 1]) == ' ', 'last_space'\n"
+    "assert cum(tokens, len(tokens)) == cum(tokens, len(tokens) - 1) + 1, 'cum_last'\n"
+    "assert implies(len(part) > 0, str(tokens[len(tokens) - 2]) == part and cum(tokens, len(tokens) - 1) == cum(tokens, len(tokens) - 2) + len(part)), 'cum_part'\n"
+    "assert True, 'noop'")
+
+# the two append shapes, each with its own instances of the closed lemmas (Expr#2 = tokens.extend((part, " ")), Expr#3 = tokens.append(" "))
+_SL = f"len(old(tokens)), ghost.doc, {_C0} - ghost.base, ghost.base + len(text)"
+_PIECE = "use_lemma('slice_inner', ghost.doc, ghost.base, len(text), sp_off(it, k), sp_off(it, k) + len(part))\n"
+_SEP = "use_lemma('slice_inner', ghost.doc, ghost.base, len(text), sp_off(it, k) + len(part), sp_off(it, k) + len(part) + 1)\n"
+ghost_code("tokenizers.Tokenizer.append_text", "after:Expr#2", _PIECE + _SEP +
+    f"use_lemma('slices_append', ghost.snap, {_SL}, part)\n"
+    f"use_lemma('slices_append', seq_append(ghost.snap, part), {_SL}, ' ')")
+ghost_code("tokenizers.Tokenizer.append_text", "after:Expr#3", _SEP +
+    f"use_lemma('slices_append', ghost.snap, {_SL}, ' ')")
